@@ -784,6 +784,9 @@ func (t *Teamserver) EventListenerError(ListenerName string, Error error) {
 	}
 }
 
+// ClientWriteTimeout bounds one websocket write to an operator.
+const ClientWriteTimeout = 10 * time.Second
+
 func (t *Teamserver) SendEvent(id string, pk packager.Package) error {
 	var (
 		buffer bytes.Buffer
@@ -800,6 +803,9 @@ func (t *Teamserver) SendEvent(id string, pk packager.Package) error {
 		client := value.(*Client)
 		client.Mutex.Lock()
 
+		// a peer that stopped reading must not block the sender (and with it every
+		// broadcast and every agent request that reports to the operators) forever
+		_ = client.Connection.SetWriteDeadline(time.Now().Add(ClientWriteTimeout))
 		err = client.Connection.WriteMessage(websocket.BinaryMessage, buffer.Bytes())
 		// release the per-client lock on every path: returning with it held makes the
 		// next send to this client - and so every later broadcast - block forever
